@@ -146,6 +146,11 @@ func body(s *simrt.Sim, tier string) {
 				}
 			}
 			for !sb.stop.Load() {
+				if sb.willCancel && deadAfterCancel && sb.ctx.Err() != nil {
+					// its context has ended: this subscriber has left and does not come back to its channel,
+					// whatever it had read before
+					return
+				}
 				var v int
 				got := false
 				// the broadcaster never closes subscriber channels: poll with a timeout
